@@ -447,6 +447,24 @@ def _mqtt_install(lib):
         return fut
     lib.ext_calls["asyncio.ensure_future"] = ensure_future
 
+    def current_task(I, a, k, fr, n):
+        # the task running this code: whether (and how often) it has been asked to cancel is the environment's choice
+        t = LibObj("current_task")
+
+        def attr(I2, name, fr2, n2):
+            if name in ("cancelling", "uncancel"):
+                def count(I3, a3, k3):
+                    c = I3.c.fresh("cancel_requests", IntS)
+                    I3.c.assume(c >= 0)
+                    return Sym(c, "int")
+                return Builtin(f"Task.{name}", count)
+            if name == "cancelled":
+                return Builtin("Task.cancelled", lambda I3, a3, k3: False)
+            return MISSING
+        t.attr = attr
+        return t
+    lib.ext_calls["asyncio.current_task"] = current_task
+
     def complete(I3, fut, fr, n):
         try:
             fut.value = I3.do_await(fut.coro, fr, n)
